@@ -5,6 +5,7 @@ import tempfile
 
 import gen
 import proj
+import pycheck
 import proj_m
 import proj_mexcpp
 import tlc
@@ -17,6 +18,8 @@ def observe(texts, ignore=(), ser=False, module_name="mod"):
         texts = [texts]
     try:
         m = parser.Module.parseString("\n".join(texts) + "\n")
+        if pycheck.typedef_of_non_template(proj.proj_tree(m)):
+            return {"outcome": "not-judged:typedef-of-non-template"}
         m = instantiator.instantiate_namespace(m)
         inst = proj.proj_minst(m)
     except proj.ProjectionError:
